@@ -514,6 +514,45 @@ func runeBoundaryAtOrBefore(text string, pos int) int {
 	return pos
 }
 
+// findSplitPointWithin finds a split position whose first part, once trimmed,
+// is at most limit bytes long: the last sentence end or, failing that, the
+// last word boundary before the limit, else the limit itself (never inside a
+// multi-byte character)
+func findSplitPointWithin(text string, limit int) int {
+	if limit >= len(text) {
+		return len(text)
+	}
+
+	for i := limit - 1; i >= 0 && i > limit-100; i-- {
+		if isSentenceEndChar(text[i]) && (text[i+1] == ' ' || text[i+1] == '\n') {
+			return i + 1
+		}
+	}
+
+	for i := limit; i >= 0 && i > limit-50; i-- {
+		if text[i] == ' ' || text[i] == '\n' {
+			return i + 1
+		}
+	}
+
+	return runeBoundaryAtOrBefore(text, limit)
+}
+
+// hardByteLimit returns the hard maximum as a byte count, when the maximum is
+// hard and given in a unit with an exact byte equivalent
+func (sc *SizeCalculator) hardByteLimit() (int, bool) {
+	if sc.config.Max.Type != LimitTypeHard {
+		return 0, false
+	}
+	switch sc.config.Max.Unit {
+	case SizeUnitCharacters:
+		return sc.config.Max.Value, true
+	case SizeUnitTokens:
+		return int(float64(sc.config.Max.Value) / sc.tokensPerChar()), true
+	}
+	return 0, false
+}
+
 // isSentenceEndChar checks if a character typically ends a sentence
 func isSentenceEndChar(c byte) bool {
 	return c == '.' || c == '!' || c == '?'
@@ -533,6 +572,10 @@ func (sc *SizeCalculator) SplitToSize(text string, boundaries []Boundary) []stri
 
 		// Find split point using max limit (not target) to ensure chunks fit
 		splitPos := sc.FindSplitPointAt(remaining, boundaries, sc.config.Max.Value, sc.config.Max.Unit)
+		if limit, ok := sc.hardByteLimit(); ok && splitPos > limit {
+			// The search looked ahead of a hard maximum: search backwards only
+			splitPos = findSplitPointWithin(remaining, limit)
+		}
 		if splitPos <= 0 {
 			// Always make progress by at least one whole character
 			_, splitPos = utf8.DecodeRuneInString(remaining)
